@@ -67,6 +67,54 @@ LINK_SCRIPTS = {
 }
 
 
+def random_link_script(name):
+    """'random:<seed>[:r]': a random history of files named in a random subset of the three namespaces, hard links from any name to
+    a new name in any namespace, removals of single names (the last one releases the content) and of whole files; with ':r' the
+    image is written and opened again at random points and the history goes on on the opened object (no empty files then: K21)"""
+    import random
+    parts = name.split(':')
+    seed, reopen = int(parts[1]), len(parts) > 2 and parts[2] == 'r'
+    rnd = random.Random('links/%d/%s' % (seed, reopen))
+    names = []            # (namespace, path, cid)
+    ops = [('dir', dict(iso='/D', joliet='/d', udf='/d'))]
+    ncontent, k = 0, 0
+
+    def fresh(ns):
+        d = rnd.choice(['', '/D'])
+        return {'iso': '%s/N%d.;1' % (d, k), 'joliet': '%s/n%d' % (d.lower(), k), 'udf': '%s/n%d' % (d.lower(), k)}[ns]
+    for _ in range(rnd.randint(8, 22)):
+        k += 1
+        r = rnd.random()
+        if reopen and names and rnd.random() < 0.15:
+            ops.append(('reopen',))
+        if r < 0.35 or not names:
+            nss = [ns for ns in ('iso', 'joliet', 'udf') if rnd.random() < 0.6] or [rnd.choice(['iso', 'joliet', 'udf'])]
+            size = rnd.choice([1, 5, 2048, 2049, 3000] + ([] if reopen else [0]))
+            given = {ns: fresh(ns) for ns in nss}
+            ops.append(('file', size, given))
+            names += [(ns, p, ncontent) for ns, p in given.items()]
+            ncontent += 1
+        elif r < 0.65:
+            ons, opath, cid = rnd.choice(names)
+            nns = rnd.choice(['iso', 'joliet', 'udf'])
+            npath = fresh(nns)
+            ops.append(('link', {ons: opath}, {nns: npath}))
+            names.append((nns, npath, cid))
+        elif r < 0.9:
+            ns, path, cid = rnd.choice(names)
+            ops.append(('rm_link', {ns: path}))
+            names.remove((ns, path, cid))
+        else:
+            ns, path, cid = rnd.choice(names)
+            ops.append(('rm_file', {ns: path}))
+            names = [n for n in names if n[2] != cid]
+    return ops
+
+
+def get_link_script(name):
+    return random_link_script(name) if name.startswith('random:') else LINK_SCRIPTS[name]
+
+
 def kw_of(names, old=False):
     k = {}
     for ns, p in names.items():
@@ -110,6 +158,12 @@ def run_script(c, script):
         elif op[0] == 'rm_eltorito':
             S.call(c, iso, 'rm_eltorito')
             boot = None
+        elif op[0] == 'dir':
+            S.call(c, iso, 'add_directory', **kw_of(op[1]))
+        elif op[0] == 'reopen':
+            img = S.written(c, iso)
+            iso = c.new(S.PC)
+            S.call(c, iso, 'open_fp', c.file(img))
     return iso, contents, model, boot
 
 
@@ -127,7 +181,7 @@ class Links(Base):
     def setup(self, c):
         S.pin_environment(c)
         a = c.a
-        a.iso, a.contents, a.model, a.boot = run_script(c, LINK_SCRIPTS[self.script])
+        a.iso, a.contents, a.model, a.boot = run_script(c, get_link_script(self.script))
         # reference: an image that only ever received the surviving names (content stored once => same total size)
         a.out = c.file(b'')
         return Call([a.out], self_obj=a.iso)
@@ -153,9 +207,9 @@ class Links(Base):
         def jkey(path):
             return b'/' + path[1:].encode('utf-16_be')
         m = a.model
-        cl['iso9660-names-are-exactly-the-surviving-ones'] = sorted(tree) == sorted(p.encode() for p in m['iso'])
-        cl['joliet-names-are-exactly-the-surviving-ones'] = sorted(p for p in jt if p != jkey('/boot.cat')) == sorted(jkey(p) for p in m['joliet'])
-        cl['udf-names-are-exactly-the-surviving-ones'] = sorted(p for p in u.files if p != '/boot.cat') == sorted(m['udf'])
+        cl['iso9660-names-are-exactly-the-surviving-ones'] = sorted(p for p, t in tree.items() if t[0] != 'dir') == sorted(p.encode() for p in m['iso'])
+        cl['joliet-names-are-exactly-the-surviving-ones'] = sorted(p for p, t in jt.items() if p != jkey('/boot.cat') and t[0] != 'dir') == sorted(jkey(p).replace('/'.encode('utf-16_be'), b'/') for p in m['joliet'])
+        cl['udf-names-are-exactly-the-surviving-ones'] = sorted(p for p, f in u.files.items() if p != '/boot.cat' and f['kind'] != 'dir') == sorted(m['udf'])
         same_bytes, where = [], {}
         for p, cid in m['iso'].items():
             t = tree.get(p.encode())
@@ -163,7 +217,7 @@ class Links(Base):
                 same_bytes.append(Eq(V.mk_bytes(R.file_bytes(im, t[1])), a.contents[cid]))
                 where.setdefault(cid, set()).add(t[1][0][0])
         for p, cid in m['joliet'].items():
-            t = jt.get(jkey(p))
+            t = jt.get(jkey(p).replace('/'.encode('utf-16_be'), b'/'))
             if t:
                 same_bytes.append(Eq(V.mk_bytes(R.file_bytes(im, t[1])), a.contents[cid]))
                 where.setdefault(cid, set()).add(t[1][0][0])
@@ -175,6 +229,8 @@ class Links(Base):
                     where.setdefault(cid, set()).add(f['extents'][0][0])
         cl['all-names-of-a-content-read-its-bytes'] = And(*same_bytes) if same_bytes else True
         cl['each-content-is-stored-once'] = all(len(s) == 1 for s in where.values())
+        # (an empty content occupies no sector: where its names point is not constrained)
+        where = {cid: s for cid, s in where.items() if len(V.items_of(a.contents[cid]))}
         cl['distinct-contents-do-not-share-sectors'] = len(set(next(iter(s)) for s in where.values())) == len(where)
         # El Torito
         if a.boot is not None:
